@@ -3,7 +3,8 @@
    pipes them) of Ops/Aggregates.v; for every finite input and termination. *)
 From RxVerif Require Import Base.Prelude Ops.Machine Ops.MachineFacts Ops.ComposeFacts
   Ops.Elementwise Ops.Aggregates Ops.AggregatesFacts Ops.AggregatesMore
-  Ops.Multi Ops.MultiCase Ops.SeqEqual Ops.SeqEqualFacts.
+  Ops.Multi Ops.MultiCase Ops.SeqEqual Ops.SeqEqualFacts
+  Ops.ElementwiseFacts Ops.ComposeTagged Ops.AggregatesTagged.
 
 (* pipelines: what a two-stage pipeline delivers is what stage 2 delivers on
    stage 1's output -- for ARBITRARY input streams *)
@@ -358,3 +359,129 @@ Example C06_witness_min_by_reversed_comparer :
   untag (exec (op_min_by (pure (fun x : Z => x mod 3)) (pure2 (fun a b => b - a))) (events [1; 5; 3; 2; 8] TDone))
   = [Next [5; 2; 8]; Done].
 Proof. vm_compute. reflexivity. Qed.
+
+(* ---- the deciding instant (Ops/ComposeTagged.v, Ops/AggregatesTagged.v) ----------------------------------
+   TAGGED composition: a two-stage pipeline emits, at each input position, what stage 2 emits when it is fed
+   stage 1's output, every reaction of stage 2 carrying the position of the stage-1 notification that caused
+   it ([exec_tagged]); for ARBITRARY input streams.  Forgetting the positions gives C06_composition. *)
+Theorem C06_composition_tagged : forall A B C (m1 : mealy A B) (m2 : mealy B C) ins,
+  exec (compose m1 m2) ins = exec_tagged m2 (exec m1 ins).
+Proof. exact @compose_exec_tagged. Qed.
+Print Assumptions C06_composition_tagged.
+Theorem C06_tagged_run_forgets_to_run : forall B C (m2 : mealy B C) (ins : list (nat * ev B)),
+  untag (exec_tagged m2 ins) = untag (exec m2 (untag ins)).
+Proof. exact @exec_tagged_untag. Qed.
+Print Assumptions C06_tagged_run_forgets_to_run.
+
+(* "short-circuiting aggregates emit at the element that decides them": position j = the j-th input *)
+Theorem C06_all_at_deciding_element : forall A (p : A -> bool) (xs : list A) t,
+  exec (op_all (pure p)) (events xs t)
+  = match first_failing p (indexed 1 xs) with
+    | Some (j, _) => [(j, Next false); (j, Done)]
+    | None => at_end (S (length xs)) t true
+    end.
+Proof. exact @all_tagged. Qed.
+Print Assumptions C06_all_at_deciding_element.
+
+Theorem C06_some_pred_at_deciding_element : forall A (p : A -> bool) (xs : list A) t,
+  exec (op_some_pred (pure p)) (events xs t)
+  = match find (fun kx => p (snd kx)) (indexed 1 xs) with
+    | Some (j, _) => [(j, Next true); (j, Done)]
+    | None => at_end (S (length xs)) t false
+    end.
+Proof. exact @some_pred_tagged. Qed.
+Print Assumptions C06_some_pred_at_deciding_element.
+
+Theorem C06_contains_at_deciding_element : forall A (eqb : A -> A -> bool) (v : A) (xs : list A) t,
+  exec (op_contains (pure2 eqb) v) (events xs t)
+  = match find (fun kx => eqb (snd kx) v) (indexed 1 xs) with
+    | Some (j, _) => [(j, Next true); (j, Done)]
+    | None => at_end (S (length xs)) t false
+    end.
+Proof. exact @contains_tagged. Qed.
+Print Assumptions C06_contains_at_deciding_element.
+
+Theorem C06_is_empty_at_first_element : forall A (xs : list A) t,
+  exec op_is_empty (events xs t)
+  = match xs with
+    | _ :: _ => [(1%nat, Next false); (1%nat, Done)]
+    | [] => at_end 1 t true
+    end.
+Proof. exact @is_empty_tagged. Qed.
+Print Assumptions C06_is_empty_at_first_element.
+
+(* single fails WHEN THE SECOND ELEMENT ARRIVES (position 2), whatever follows *)
+Theorem C06_single_fails_at_second_element : forall A default (xs : list A) t,
+  exec (op_single default) (events xs t)
+  = match xs with
+    | [] => match t with
+            | TDone => match default with Some d => [(1%nat, Next d); (1%nat, Done)]
+                                        | None => [(1%nat, Err EXN_NO_ELEMENTS)] end
+            | TErr e => [(1%nat, Err e)]
+            | TNever => []
+            end
+    | [x] => at_end 2 t x
+    | _ :: _ :: _ => [(2%nat, Err EXN_MORE_THAN_ONE)]
+    end.
+Proof. exact @single_tagged. Qed.
+Print Assumptions C06_single_fails_at_second_element.
+
+Theorem C06_first_pred_at_deciding_element : forall A (p : A -> bool) default (xs : list A) t,
+  exec (op_first_pred (pure p) default) (events xs t)
+  = match find (fun kx => p (snd kx)) (indexed 1 xs) with
+    | Some (j, x) => [(j, Next x); (j, Done)]
+    | None => match t with
+              | TDone => match default with
+                         | Some d => [(S (length xs), Next d); (S (length xs), Done)]
+                         | None => [(S (length xs), Err EXN_NO_ELEMENTS)]
+                         end
+              | TErr e => [(S (length xs), Err e)]
+              | TNever => []
+              end
+    end.
+Proof. exact @first_pred_tagged. Qed.
+Print Assumptions C06_first_pred_at_deciding_element.
+
+(* sequence_equal(iterable): false at the first mismatching or surplus element, else decided at completion *)
+Theorem C06_sequence_equal_iter_at_deciding_element : forall A eqb (second xs : list A) t,
+  exec (op_sequence_equal_iter (pure2 eqb) second) (events xs t)
+  = match se_mismatch_at eqb second xs 1 with
+    | Some j => [(j, Next false); (j, Done)]
+    | None => at_end (S (length xs)) t (match se_run eqb second xs with Some [] => true | _ => false end)
+    end.
+Proof. exact @sequence_equal_iter_tagged. Qed.
+Print Assumptions C06_sequence_equal_iter_at_deciding_element.
+
+(* ---- to_dict: nothing until the source completes, then { key(x): elem(x) } built by successive assignment
+   (a later element with an equal key overwrites the value, the first key object stays), then completion *)
+Theorem C06_to_dict : forall A K V (keq : K -> K -> bool) (key : A -> K) (el : A -> V) (xs : list A) t,
+  untag (exec (op_to_dict keq (pure key) (pure el)) (events xs t))
+  = match t with
+    | TDone => [Next (fold_left (fun d x => dict_set keq d (key x) (el x)) xs []); Done]
+    | TErr e => [Err e]
+    | TNever => []
+    end.
+Proof. exact @to_dict_spec. Qed.
+Print Assumptions C06_to_dict.
+Theorem C06_to_dict_at_completion : forall A K V (keq : K -> K -> bool) (key : A -> K) (el : A -> V) (xs : list A) t,
+  exec (op_to_dict keq (pure key) (pure el)) (events xs t)
+  = at_end (S (length xs)) t (to_dict_list keq key el xs).
+Proof. exact @to_dict_tagged. Qed.
+Print Assumptions C06_to_dict_at_completion.
+(* what the dictionary holds (key equality an equivalence): a lookup gives the value of the LAST element
+   with that key, and nothing for a key no element has *)
+Theorem C06_to_dict_lookup : forall A K V (keq : K -> K -> bool),
+  (forall a b, keq a b = keq b a) -> (forall a b c, keq a b = true -> keq b c = true -> keq a c = true) ->
+  forall (key : A -> K) (el : A -> V) (xs : list A) q,
+  dict_get keq (to_dict_list keq key el xs) q = option_map el (find (fun x => keq (key x) q) (rev xs)).
+Proof. exact @to_dict_lookup. Qed.
+Print Assumptions C06_to_dict_lookup.
+
+Example C06_witness_to_dict :
+  untag (exec (op_to_dict Z.eqb (pure (fun x : Z => x mod 3)) (pure (fun x : Z => x * 10))) (events [1; 5; 4; 3] TDone))
+  = [Next [(1, 40); (2, 50); (0, 30)]; Done].
+Proof. vm_compute. reflexivity. Qed.
+Example C06_witness_all_decided_early :
+  exec (op_all (pure (fun x : Z => x <? 5))) (events [1; 2; 7; 3; 9] (TErr 4)) = [(3%nat, Next false); (3%nat, Done)]
+  /\ exec (op_all (pure (fun x : Z => x <? 5))) (events [1; 2] TDone) = [(3%nat, Next true); (3%nat, Done)].
+Proof. vm_compute. split; reflexivity. Qed.
